@@ -19,6 +19,7 @@ import (
 	otelprom "go.opentelemetry.io/otel/exporters/prometheus"
 	"go.opentelemetry.io/otel/metric"
 	sdkmetric "go.opentelemetry.io/otel/sdk/metric"
+	"go.opentelemetry.io/otel/sdk/resource"
 
 	"verif/simdrv"
 	"verif/simrt"
@@ -186,7 +187,7 @@ func (engine) Body(r *simdrv.Run) {
 	for t := range scrPlans {
 		scrPlans[t] = 1 + r.Cfg(4)
 	}
-	optBits := r.Cfg(32)
+	optBits := r.Cfg(64)
 	var popts []otelprom.Option
 	optDesc := []string{}
 	if optBits&1 != 0 {
@@ -211,6 +212,10 @@ func (engine) Body(r *simdrv.Run) {
 		popts = append(popts, otelprom.WithoutTargetInfo())
 		optDesc = append(optDesc, "without-target-info")
 	}
+	if optBits&32 != 0 {
+		popts = append(popts, otelprom.WithResourceAsConstantLabels(attribute.NewAllowKeysFilter("service.name", "deployment")))
+		optDesc = append(optDesc, "resource-as-constant-labels")
+	}
 	r.Res.Config["options"] = strings.Join(optDesc, ",")
 	var idesc []string
 	for _, in := range w.insts {
@@ -234,7 +239,8 @@ func (engine) Body(r *simdrv.Run) {
 		sim.Finish()
 		return
 	}
-	mp := sdkmetric.NewMeterProvider(sdkmetric.WithReader(exp))
+	mp := sdkmetric.NewMeterProvider(sdkmetric.WithReader(exp),
+		sdkmetric.WithResource(resource.NewSchemaless(attribute.String("service.name", "sim"), attribute.String("deployment", "test"), attribute.String("unrelated", "x"))))
 	create := func(in *inst) {
 		m := mp.Meter(fmt.Sprintf("scope%d", in.scope), metric.WithInstrumentationVersion("v1"))
 		var e error
